@@ -84,6 +84,8 @@ class Event:
                 raise InputStateError("Rate and equation defined, but only one should be provided")
             elif (n_eq==0) and (rate is None):
                 raise InputStateError("Rate cannot be found in Event or Transitions")
+            elif n_eq==1:
+                self.rate=[tr.equation for tr in transition_list if tr.equation is not None][0]
             else:
                 self.rate=rate
                 
